@@ -4,6 +4,7 @@ import M3d.Lemmas.DualContour
 import M3d.Lemmas.MarchingFilter
 import M3d.Lemmas.LookupEdge
 import M3d.Lemmas.DcBlock
+import M3d.Lemmas.MarchingGlue
 import M3d.Gen.McTable
 import M3d.Props.C01
 /-!
@@ -17,7 +18,7 @@ Property theorems only.  Models: `M3d/Model/Bisect.lean` (the refinement loops o
 `K` is any linear ordered field (ℚ — the type the driver executes — and ℝ included).
 -/
 namespace M3d.C02
-open M3d.Bisect M3d.Marching M3d.DC M3d.Gen M3d.Partition M3d.MarchingFilter M3d.DcBlock
+open M3d.Bisect M3d.Marching M3d.DC M3d.Gen M3d.Partition M3d.MarchingFilter M3d.DcBlock M3d.MarchingGlue
 
 set_option linter.unusedSectionVars false
 variable {K : Type} [Field K] [LinearOrder K] [IsStrictOrderedRing K]
@@ -560,5 +561,228 @@ of the quad) keeps its crossing score and negates its normal. -/
 theorem dc_flip_reverses_normal (a b c : K × K) :
     hitHalf c b a = hitHalf a b c ∧ areaSign c b a = -areaSign a b c :=
   ⟨hitHalf_flip a b c, areaSign_flip a b c⟩
+
+/-! ## 4. the wrappers round the meshers
+
+`MarchingCubesConj` / `MarchingSquaresConj` (mesh `TransformSolid(JoinedTransform(xforms), s)`, map the
+mesh back through `joined.Inverse()`), `MarchingSquaresC2F` / `MarchingCubesC2F` (the coarse mesh is the
+region filter of the fine one) and `DualContour` / `DualContourInterior` (build the `DualContouring`
+literal).  Models: `M3d/Model/MarchingGlue.lean`; the transforms are C05's `M3d.Tf.Xf`
+(`M3d/Model/Transform.lean`), `t.Valid` = invertible by the library's own `Inverse()` (non-zero scales
+and determinants). -/
+
+/-- **`MarchingCubesConj` returns the surface of the lattice surface's pre-image.**  The vertex map
+`mesh.Transform(joined.Inverse())` (`conjBack3`) and `joined.Apply` are mutually inverse: the returned
+vertex is the unique point that the joined transform sends to the (refined) lattice-space vertex, for
+every list of invertible transforms. -/
+theorem conj_vertex_round_trip (ts : List (Tf.Xf K)) (hv : ∀ t ∈ ts, t.Valid) (q : Tf.V3 K) :
+    (Tf.Xf.ofList ts).apply (conjBack3 ts q) = q ∧ conjBack3 ts ((Tf.Xf.ofList ts).apply q) = q :=
+  ⟨Tf.Xf.apply_inverse _ (ofList_valid ts hv) q, Tf.Xf.inverse_apply _ (ofList_valid ts hv) q⟩
+
+/-- The order: `joined.Apply` runs the members first to last, the vertex map runs their inverses LAST
+TO FIRST (`foldr`). -/
+theorem conj_back_is_reversed_inverses (ts : List (Tf.Xf K)) (v : Tf.V3 K) :
+    conjBack3 ts v = ts.foldr (fun t c => t.inverse.apply c) v ∧
+      (Tf.Xf.ofList ts).apply v = ts.foldl (fun c t => t.apply c) v :=
+  ⟨conjBack3_eq ts v, ofList_apply ts v⟩
+
+/-- the order matters: translate by (1,0,0) then scale by 2 sends the origin to (2,0,0); the members'
+inverses applied first to last send (2,0,0) to (1/2,0,0), not back to the origin. -/
+example : conjBack3 [Tf.Xf.translate ⟨1, 0, 0⟩, Tf.Xf.scale (2 : ℚ)] ⟨2, 0, 0⟩ = ⟨0, 0, 0⟩ ∧
+    conjBackForward3 [Tf.Xf.translate ⟨1, 0, 0⟩, Tf.Xf.scale (2 : ℚ)] ⟨2, 0, 0⟩ = ⟨1 / 2, 0, 0⟩ := by
+  constructor <;> (ext <;> norm_num [conjBack3, conjBackForward3, Tf.Xf.ofList, Tf.Xf.inverse, Tf.Xf.snoc, Tf.Xf.apply,
+    Tf.V3.add, Tf.V3.scale])
+
+/-- **Every lattice sample point is labelled with the solid's answer at the point the returned mesh
+places it.**  For a solid inside its own bounds, the label `TransformSolid(joined, s).Contains(p)` of a
+point `p` of the transformed space is `s.Contains` at `conjBack3 ts p`, the image of `p` under the
+vertex map.  Hence the three clauses proved for the lattice-space mesh (`mc_vertex_iff_sign_change`,
+`mc_side_correct`, `mc_search_vertex_on_edge`) hold for the returned mesh with the lattice
+`conjBack3 ts (lattice point)` and the ORIGINAL solid — the map is a bijection (`conj_vertex_round_trip`). -/
+theorem conj_label_is_solid (ts : List (Tf.Xf K)) (hv : ∀ t ∈ ts, t.Valid) (s : Tf.Solid K)
+    (hs : ∀ x, s.contains x = true → Tf.Box s.lo s.hi x) (p : Tf.V3 K) :
+    (conjSolid3 ts s).contains p = s.contains (conjBack3 ts p) :=
+  conjSolid3_contains ts hv s hs p
+
+/-- 2-D twins (`MarchingSquaresConj`). -/
+theorem conj2_vertex_round_trip (ts : List (Tf.Xf2 K)) (hv : ∀ t ∈ ts, t.Valid) (q : Tf.V2 K) :
+    (Tf.Xf2.ofList ts).apply (conjBack2 ts q) = q ∧ conjBack2 ts ((Tf.Xf2.ofList ts).apply q) = q :=
+  ⟨Tf.Xf2.apply_inverse _ (ofList2_valid ts hv) q, Tf.Xf2.inverse_apply _ (ofList2_valid ts hv) q⟩
+
+theorem conj2_back_is_reversed_inverses (ts : List (Tf.Xf2 K)) (v : Tf.V2 K) :
+    conjBack2 ts v = ts.foldr (fun t c => t.inverse.apply c) v ∧
+      (Tf.Xf2.ofList ts).apply v = ts.foldl (fun c t => t.apply c) v :=
+  ⟨conjBack2_eq ts v, ofList2_apply ts v⟩
+
+theorem conj2_label_is_solid (ts : List (Tf.Xf2 K)) (hv : ∀ t ∈ ts, t.Valid) (s : Tf.Solid2 K)
+    (hs : ∀ x, s.contains x = true → Tf.Box2 s.lo s.hi x) (p : Tf.V2 K) :
+    (conjSolid2 ts s).contains p = s.contains (conjBack2 ts p) :=
+  conjSolid2_contains ts hv s hs p
+
+example : ∀ t ∈ [Tf.Xf.translate ⟨1, 0, 0⟩, Tf.Xf.scale (2 : ℚ), Tf.Xf.matrix ⟨0, 0, 2, 0, 1, 0, 1 / 2, 0, 0⟩], t.Valid := by
+  intro t ht
+  simp only [List.mem_cons, List.not_mem_nil, or_false] at ht
+  rcases ht with rfl | rfl | rfl <;> norm_num [Tf.Xf.Valid, Tf.M3.det]
+
+/-- **The total margin of the coarse-to-fine filter covers one coarse cell.**  `extraSpace + 2·bigDelta·√3`
+(`s3` = `math.Sqrt(3)`, of which only `1 ≤ s3` is used) is at least `extraSpace + bigDelta`. -/
+theorem c2f_total_covers (s3 big extra : K) (hs : 1 ≤ s3) (hb : 0 ≤ big) :
+    extra + big ≤ c2fTotal s3 big extra := by
+  unfold c2fTotal
+  nlinarith [mul_nonneg hb (sub_nonneg.mpr hs)]
+
+/-- **The filter of `MarchingSquaresC2F` loses nothing the coarse mesh is near.**  `W` = the vertices of
+the coarse mesh `MarchingSquaresSearch(s, bigDelta, iters)`; `F r` = `collider.RectCollision(r.Expand(e))`
+with `e = c2fTotal …`, of which only "a rectangle whose expansion contains a vertex of the coarse mesh is
+reported" is assumed (`hF`).  If every fine lattice point from which a lattice edge with differently
+labelled ends starts has a vertex of `W` within `D ≤ e` in the max-norm (`hnear`: nothing is "totally
+missed by the coarse mesh", or the caller's `extraSpace` makes up for it), then the block oracle
+`b ↦ F(b.Bounds(ε))` is point-sound — so by `ms_filter_same_mesh` & co. the C2F output is the plain fine
+mesh, for every schedule of the worker pool. -/
+theorem c2f_ms_filter_sound (C : K → K → Bool) (X Y : Nat → K) (hX : ∀ i j, i ≤ j → X i ≤ X j)
+    (hY : ∀ i j, i ≤ j → Y i ≤ Y j) (eps : K) (he : 0 ≤ eps) (W : List (K × K)) (e D : K) (hD : D ≤ e)
+    (F : Rect2 K → Bool)
+    (hF : ∀ r w, w ∈ W → (rectExpand2 r e).Has w.1 w.2 → F r = true)
+    (nx ny : Nat)
+    (hnear : ∀ i j, i ≤ nx → j ≤ ny →
+      ((i + 1 ≤ nx ∧ C (X i) (Y j) ≠ C (X (i + 1)) (Y j)) ∨ (j + 1 ≤ ny ∧ C (X i) (Y j) ≠ C (X i) (Y (j + 1)))) →
+      nearVertex2 W D (X i) (Y j) = true)
+    (sched : List (List Block2))
+    (hs : Schedule2 (blockQueue2 (fun b => F (blockBounds2 X Y eps b)) (rootBlock2 nx ny)) sched) :
+    PointSound2 nx ny (fun i j => C (X i) (Y j)) (fun b => F (blockBounds2 X Y eps b)) ∧
+    (msFilterMesh msTable (fun i j => C (X i) (Y j)) (fun b => F (blockBounds2 X Y eps b)) sched).Perm
+      (msMesh msTable nx ny (fun i j => C (X i) (Y j))) := by
+  have h := c2f_point_sound2 C X Y hX hY eps he W e D hD F hF nx ny hnear
+  exact ⟨h, ms_filter_same_mesh nx ny _ _ h sched hs⟩
+
+/-- 3-D twin: `MarchingCubesC2F`. -/
+theorem c2f_mc_filter_sound (C : K → K → K → Bool) (X Y Z : Nat → K) (hX : ∀ i j, i ≤ j → X i ≤ X j)
+    (hY : ∀ i j, i ≤ j → Y i ≤ Y j) (hZ : ∀ i j, i ≤ j → Z i ≤ Z j) (eps : K) (he : 0 ≤ eps)
+    (W : List (K × K × K)) (e D : K) (hD : D ≤ e) (F : Rect3 K → Bool)
+    (hF : ∀ r w, w ∈ W → (rectExpand3 r e).Has w.1 w.2.1 w.2.2 → F r = true)
+    (nx ny nz : Nat)
+    (hnear : ∀ i j k, i ≤ nx → j ≤ ny → k ≤ nz →
+      ((i + 1 ≤ nx ∧ C (X i) (Y j) (Z k) ≠ C (X (i + 1)) (Y j) (Z k)) ∨
+       (j + 1 ≤ ny ∧ C (X i) (Y j) (Z k) ≠ C (X i) (Y (j + 1)) (Z k)) ∨
+       (k + 1 ≤ nz ∧ C (X i) (Y j) (Z k) ≠ C (X i) (Y j) (Z (k + 1)))) →
+      nearVertex3 W D (X i) (Y j) (Z k) = true)
+    (sched : List (List Block))
+    (hs : Schedule (blockQueue (fun b => F (blockBounds3 X Y Z eps b)) (rootBlock nx ny nz)) sched) :
+    PointSound3 nx ny nz (fun i j k => C (X i) (Y j) (Z k)) (fun b => F (blockBounds3 X Y Z eps b)) ∧
+    (mcFilterMesh mcTable (fun i j k => C (X i) (Y j) (Z k)) (fun b => F (blockBounds3 X Y Z eps b)) sched).Perm
+      (mcMesh mcTable nx ny nz (fun i j k => C (X i) (Y j) (Z k))) := by
+  have h := c2f_point_sound3 C X Y Z hX hY hZ eps he W e D hD F hF nx ny nz hnear
+  exact ⟨h, mc_filter_same_mesh nx ny nz _ _ h sched hs⟩
+
+/-- non-vacuity of the C2F hypotheses: a lattice with one sign change next to a coarse vertex. -/
+example : nearVertex2 [((1 : ℚ), (1 / 2 : ℚ))] 1 (1 / 2) 0 = true ∧ (0 : ℚ) + 1 ≤ c2fTotal (2 : ℚ) 1 0 := by
+  constructor
+  · decide +kernel
+  · exact c2f_total_covers 2 1 0 (by norm_num) (by norm_num)
+
+/-- **A feature inside a coarse cell that the coarse mesh crosses is within one coarse spacing of a
+coarse vertex** (the reading of "not totally missed by the coarse mesh" under which `hnear` holds with
+`D = bigDelta` and no `extraSpace`): if the four corners of coarse cell `(a, b)` are not all labelled
+alike, the coarse marching-squares mesh has a vertex on one of the four edges of that cell — and the
+search refinement keeps it on that edge (`bisect_result_between`), i.e. inside the closed cell, whose
+extent is `bigDelta` on every axis. -/
+theorem c2f_mixed_coarse_cell_has_vertex (nx ny : Nat) (hnx : 0 < nx) (hny : 0 < ny) (lab : Nat → Nat → Bool)
+    (a b : Nat) (ha : a < nx) (hb : b < ny)
+    (hmix : ¬ (lab a b = lab (a + 1) b ∧ lab a b = lab a (b + 1) ∧ lab a b = lab (a + 1) (b + 1))) :
+    ∃ p k, k < 2 ∧ edgeVertex2 p k ∈ meshVerts2 (msMesh msTable nx ny lab) ∧
+      a ≤ p.1 ∧ b ≤ p.2 ∧ (step2 p k).1 ≤ a + 1 ∧ (step2 p k).2 ≤ b + 1 := by
+  have mk : ∀ (p : Nat × Nat) (k : Nat), k < 2 → inBox2 nx ny p → inBox2 nx ny (step2 p k) →
+      lab p.1 p.2 ≠ lab (step2 p k).1 (step2 p k).2 →
+      edgeVertex2 p k ∈ meshVerts2 (msMesh msTable nx ny lab) :=
+    fun p k hk hp hq hne => (ms_vertex_iff_sign_change nx ny hnx hny lab p k hk hp hq).2 hne
+  by_cases h1 : lab a b = lab (a + 1) b
+  · by_cases h2 : lab a b = lab a (b + 1)
+    · -- the two lower/left edges agree, so the far corner differs: the top edge changes sign
+      have h3 : lab a (b + 1) ≠ lab (a + 1) (b + 1) := fun h => hmix ⟨h1, h2, h2.trans h⟩
+      refine ⟨(a, b + 1), 0, by omega, mk (a, b + 1) 0 (by omega) ?_ ?_ ?_, ?_⟩
+      · simp only [inBox2]; omega
+      · simp only [inBox2, step2, unit]; simp; omega
+      · simpa [step2, unit] using h3
+      · simp [step2, unit]
+    · refine ⟨(a, b), 1, by omega, mk (a, b) 1 (by omega) ?_ ?_ ?_, ?_⟩
+      · simp only [inBox2]; omega
+      · simp only [inBox2, step2, unit]; simp; omega
+      · simpa [step2, unit] using h2
+      · simp [step2, unit]
+  · refine ⟨(a, b), 0, by omega, mk (a, b) 0 (by omega) ?_ ?_ ?_, ?_⟩
+    · simp only [inBox2]; omega
+    · simp only [inBox2, step2, unit]; simp; omega
+    · simpa [step2, unit] using h1
+    · simp [step2, unit]
+
+/-- 3-D twin: a coarse cube whose eight corners are not all labelled alike has a coarse marching-cubes
+vertex on one of its twelve edges. -/
+theorem c2f_mixed_coarse_cube_has_vertex (nx ny nz : Nat) (hnx : 0 < nx) (hny : 0 < ny) (hnz : 0 < nz)
+    (lab : Nat → Nat → Nat → Bool) (a b c : Nat) (ha : a < nx) (hb : b < ny) (hc : c < nz)
+    (hmix : ¬ (∀ i j k, i ≤ 1 → j ≤ 1 → k ≤ 1 → lab (a + i) (b + j) (c + k) = lab a b c)) :
+    ∃ p k, k < 3 ∧ edgeVertex p k ∈ meshVerts (mcMesh mcTable nx ny nz lab) ∧
+      a ≤ p.1 ∧ b ≤ p.2.1 ∧ c ≤ p.2.2 ∧
+      (step3 p k).1 ≤ a + 1 ∧ (step3 p k).2.1 ≤ b + 1 ∧ (step3 p k).2.2 ≤ c + 1 := by
+  -- an edge of the cube, given by its lower end `(a+i, b+j, c+l)` and its axis, whose ends differ
+  have mk : ∀ (i j l k : Nat), k < 3 → i + unit k 0 ≤ 1 → j + unit k 1 ≤ 1 → l + unit k 2 ≤ 1 →
+      lab (a + i) (b + j) (c + l) ≠ lab (a + i + unit k 0) (b + j + unit k 1) (c + l + unit k 2) →
+      ∃ p k, k < 3 ∧ edgeVertex p k ∈ meshVerts (mcMesh mcTable nx ny nz lab) ∧
+        a ≤ p.1 ∧ b ≤ p.2.1 ∧ c ≤ p.2.2 ∧
+        (step3 p k).1 ≤ a + 1 ∧ (step3 p k).2.1 ≤ b + 1 ∧ (step3 p k).2.2 ≤ c + 1 := by
+    intro i j l k hk h0 h1 h2 hne
+    refine ⟨(a + i, b + j, c + l), k, hk, ?_, ?_⟩
+    · refine (mc_vertex_iff_sign_change nx ny nz hnx hny hnz lab (a + i, b + j, c + l) k hk ?_ ?_).2 ?_
+      · simp only [inBox3]; omega
+      · simp only [inBox3, step3]; omega
+      · simpa [step3] using hne
+    · simp only [step3]; omega
+  by_contra hno
+  apply hmix
+  have e : ∀ (i j l k : Nat), k < 3 → i + unit k 0 ≤ 1 → j + unit k 1 ≤ 1 → l + unit k 2 ≤ 1 →
+      lab (a + i) (b + j) (c + l) = lab (a + i + unit k 0) (b + j + unit k 1) (c + l + unit k 2) := by
+    intro i j l k hk h0 h1 h2
+    by_contra hne
+    exact hno (mk i j l k hk h0 h1 h2 hne)
+  have ex : ∀ j l, j ≤ 1 → l ≤ 1 → lab a (b + j) (c + l) = lab (a + 1) (b + j) (c + l) := by
+    intro j l hj hl
+    have := e 0 j l 0 (by omega) (by simp [unit]) (by simpa [unit] using hj) (by simpa [unit] using hl)
+    simpa [unit] using this
+  have ey : ∀ l, l ≤ 1 → lab a b (c + l) = lab a (b + 1) (c + l) := by
+    intro l hl
+    have := e 0 0 l 1 (by omega) (by simp [unit]) (by simp [unit]) (by simpa [unit] using hl)
+    simpa [unit] using this
+  have ez : lab a b c = lab a b (c + 1) := by
+    have := e 0 0 0 2 (by omega) (by simp [unit]) (by simp [unit]) (by simp [unit])
+    simpa [unit] using this
+  intro i j k hi hj hk
+  have sx : lab (a + i) (b + j) (c + k) = lab a (b + j) (c + k) := by
+    have hi' : i = 0 ∨ i = 1 := by omega
+    rcases hi' with rfl | rfl
+    · rfl
+    · exact (ex j k hj hk).symm
+  have sy : lab a (b + j) (c + k) = lab a b (c + k) := by
+    have hj' : j = 0 ∨ j = 1 := by omega
+    rcases hj' with rfl | rfl
+    · rfl
+    · exact (ey k hk).symm
+  have sz : lab a b (c + k) = lab a b c := by
+    have hk' : k = 0 ∨ k = 1 := by omega
+    rcases hk' with rfl | rfl
+    · rfl
+    · exact ez.symm
+  rw [sx, sy, sz]
+
+/-- **The convenience wrappers pass `clip` (and `repair`, `delta`) on.**  `DualContour(s, δ, repair, clip)`
+and `DualContourInterior(s, δ, repair, clip)` build the literal `DualContouring{S, Delta: δ, Repair: repair,
+Clip: clip}` (model `dualContourOptions` / `dualContourInteriorOptions`, tied by the `dc`/`dcr` kinds run
+through the wrappers): with `clip = true` the clipping theorems (`dc_clip_in_cell`, `dc_quad_crossed_once`,
+`dc_quad_meets_only_own_edge`) apply to what they return. -/
+theorem dc_wrappers_pass_clip (delta : K) (repair clip : Bool) :
+    (dualContourOptions delta repair clip).clip = clip ∧ (dualContourInteriorOptions delta repair clip).clip = clip ∧
+    (dualContourOptions delta repair clip).repair = repair ∧ (dualContourInteriorOptions delta repair clip).repair = repair ∧
+    (dualContourOptions delta repair clip).delta = delta ∧ (dualContourInteriorOptions delta repair clip).delta = delta ∧
+    (dualContourOptions delta repair clip).wantInterior = false ∧
+    (dualContourInteriorOptions delta repair clip).wantInterior = true :=
+  ⟨rfl, rfl, rfl, rfl, rfl, rfl, rfl, rfl⟩
 
 end M3d.C02
